@@ -21,7 +21,7 @@ from vkit.core import Sub, Violation, given_run
 from vkit.gen import g2, g3
 from vkit.gen.choice import from_bytes
 from vkit.harness.resolvers import AsyncPlan, Boom, make_async_resolvers
-from vkit.harness.sched import Hang, Sched
+from vkit.harness.sched import Hang, Sched, StepLimit
 from vkit.ref import execute as R5
 
 ID = "C07"
@@ -332,6 +332,8 @@ def eval_scenario(sc):
         except Hang as h:
             bad("hang", str(h))
             continue
+        except StepLimit:
+            continue  # inconclusive
         except Exception as e:  # noqa: BLE001
             bad("subscribe-raises", f"{type(e).__name__}: {e}")
             continue
